@@ -51,10 +51,20 @@ type Registry struct {
 }
 
 type RequireModule struct {
-	r           *Registry
-	runtime     *js.Runtime
-	modules     map[string]*js.Object
-	nodeModules map[string]*js.Object
+	r       *Registry
+	runtime *js.Runtime
+	// modules caches file modules by the path of the file they were loaded from
+	modules map[string]*js.Object
+	// nativeModules caches native and core modules by name
+	nativeModules map[string]*js.Object
+	// resolved caches the outcome of file-or-directory requests by their resolved path
+	resolved map[string]*js.Object
+	// nodeModules caches the outcome of node_modules lookups by (starting directory, name)
+	nodeModules map[nodeModuleKey]*js.Object
+}
+
+type nodeModuleKey struct {
+	start, name string
 }
 
 func NewRegistry(opts ...Option) *Registry {
@@ -107,10 +117,12 @@ func WithGlobalFolders(globalFolders ...string) Option {
 // Enable adds the require() function to the specified runtime.
 func (r *Registry) Enable(runtime *js.Runtime) *RequireModule {
 	rrt := &RequireModule{
-		r:           r,
-		runtime:     runtime,
-		modules:     make(map[string]*js.Object),
-		nodeModules: make(map[string]*js.Object),
+		r:             r,
+		runtime:       runtime,
+		modules:       make(map[string]*js.Object),
+		nativeModules: make(map[string]*js.Object),
+		resolved:      make(map[string]*js.Object),
+		nodeModules:   make(map[nodeModuleKey]*js.Object),
 	}
 
 	runtime.Set("require", rrt.require)
